@@ -404,6 +404,22 @@ def extra_programs():
         out.append(('subquery-column:' + cname, select([(col('x'), 'r')], from_=inner), [cname]))
         out.append(('subquery-first:' + cname, select([(F('first', col('x')), 'r')], from_=select([(col(cname), 'x')], from_='h')), [cname]))
     out.append(('in-subquery', select([(A.In(col('i'), select([(col('i'), None)], from_='h')), 'r')], from_='h'), ['i']))
+    # grouping keys and DISTINCT over every column type, the key given by name, by alias, by ordinal and as an
+    # expression: either rejected at compile time (unhashable type) or executed without a type error
+    cnt = (F('count', A.Asterisk()), 'n')
+    for cname in UNIVERSE:
+        if cname in SECOND.values():
+            continue
+        c = col(cname)
+        out.append((f'group-by-name:{cname}', select([(c, None), cnt], from_='h', group_by=A.GroupBy([col(cname)], None)), [cname]))
+        out.append((f'group-by-alias:{cname}', select([(c, 'z'), cnt], from_='h', group_by=A.GroupBy([col('z')], None)), [cname]))
+        out.append((f'group-by-ordinal:{cname}', select([(c, None), cnt], from_='h', group_by=A.GroupBy([1], None)), [cname]))
+        out.append((f'group-by-ordinal2:{cname}', select([cnt, (c, None)], from_='h', group_by=A.GroupBy([2], None)), [cname]))
+        out.append((f'group-by-hidden:{cname}', select([cnt], from_='h', group_by=A.GroupBy([col(cname)], None)), [cname]))
+        out.append((f'group-by-implicit:{cname}', select([(c, None), cnt], from_='h'), [cname]))
+        out.append((f'group-by-coalesce:{cname}', select([cnt], from_='h', group_by=A.GroupBy([F('coalesce', col(cname), col(cname))], None)), [cname]))
+        out.append((f'distinct:{cname}', select([(c, None)], from_='h', distinct=True), [cname]))
+        out.append((f'first-last:{cname}', select([(F('first', c), 'f'), (F('last', c), 'l'), (F('count', c), 'n')], from_='h'), [cname]))
     return out
 
 
@@ -417,7 +433,7 @@ def run_stmt(tag, stmt, cols, acc):
         acc.count('rejected_other')
         return
     except Exception as e:
-        acc.violation(f'type-error:{tb_fingerprint(e)}', f'{show(stmt)} raised {type(e).__name__}: {e}', {'tag': tag})
+        acc.violation(f'type-error:{tb_fingerprint(e)}|{tag.split(":")[0]}', f'{show(stmt)} raised {type(e).__name__}: {e}', {'tag': tag})
         return
     acc.count('accepted')
     for row in got:
